@@ -36,6 +36,10 @@ class MpmcbEngine(Engine):
         return [
             "2 a %s mr 10 1 po 10 100 cs 1 ts 0 po 10 100" % F,                                  # seeded C04-1: pending recv future outlives close
             "2 a %s cl 1 2 mr 10 1 po 10 100 cs 1 dr 2 ts 0 ms 11 0 po 11 101" % F,
+            # seeded C06-2: a cancelled, already-notified send future must pass the freed slot on (capacity >= 2)
+            "2 a %s ts 0 ts 0 cl 0 2 ms 10 0 ms 11 2 po 10 100 po 11 101 tr 1 df 10 ob 0 po 11 101" % F,
+            "3 a %s ts 0 ts 0 ts 0 cl 0 2 ms 10 0 ms 11 2 po 10 100 po 11 101 tr 1 df 10 ob 0 po 11 101 tr 1" % F,
+            "2 a %s ts 0 ts 0 cl 0 2 ms 10 0 ms 11 2 po 10 100 po 11 101 tr 1 cs 0 po 10 100 ob 2 po 11 101" % F,
             "2 s %s ts 0 cs 1 rt 1 tr 1" % F,                                                   # F-03
             "2 a %s cs 0 tr 1 ms 10 0 po 10 100 tr 1" % F,                                       # F-03 futures
             "2 a %s ts 0 cs 1 mr 10 1 po 10 100" % F,
@@ -92,7 +96,16 @@ class MpmcbEngine(Engine):
                 toks += ["ms", str(nf), "0", "po", str(nf), "100"]
                 Fu[nf] = [False, True, 0]
                 nf += 1
-                toks += ["cs", "0"]
+                if rng.chance(1, 2):
+                    toks += ["cs", "0"]
+                else:
+                    # two parked senders, one slot freed, the notified future is cancelled
+                    toks += ["cl", "0", str(nh), "ms", str(nf), str(nh), "po", str(nf), "101", "tr", "1", "df", str(nf - 1)]
+                    H[nh] = [True, True, True]
+                    Fu[nf] = [False, True, nh]
+                    Fu[nf - 1][1] = False
+                    nh += 1
+                    nf += 1
 
         def pick_h(pred):
             c = [h for h, v in H.items() if v[2] and pred(v)]
